@@ -309,7 +309,7 @@ TypeFeatures == {
     "ty_float", "ty_bool", "ty_bytes", "ty_enum", "ty_item",
     "ty_self_opt", "ty_self_list", "ty_abstract_prop", "ty_list_abstract", "ty_opt_abstract",
     "ty_cprim_int", "ty_cprim_float", "ty_cprim_bool", "ty_cprim_bytes", "ty_cprim_chain", "ty_list_cprim_int",
-    "ty_many_props"}
+    "ty_many_props", "ty_abs_list_list_int", "ty_abs_list_int", "ty_abs_opt_list_str", "ty_abs_list_enum"}
 
 \* --- structure ---------------------------------------------------------------------------------
 StructFeatures == {
@@ -345,7 +345,7 @@ DocFeaturePairsAll == {<<s, d>> : s \in DocFeatures, d \in DocIds}
 NeedsUpper(f) == f \in {"len_upper_same_ge5_le3", "len_upper_same_eq2_eq3", "pat_inh_three", "len_inh_ge5_le3", "len_inh_eq0", "len_inh_ge0_le5", "len_inh_eq2_eq3", "len_inh_eq3_eq3", "pat_inh_two"}
 NeedsItems(f) == f \in {"len_items_ge0", "len_items_eq0", "len_items_ge5_le3", "ex_all_items", "ex_any_items", "ex_all_range", "ex_index", "ex_nested_all"}
 NeedsCPrim(f) == f \in {"pat_on_cprim", "st_cprim_chain_invs", "ex_len_two_args_cprim"}
-NeedsParent(f) == f \in {"st_wmt_true", "st_wmt_false", "st_class_inv_on_inherited", "st_abstract_with_inv", "doc_on_abstract"}
+NeedsParent(f) == f \in {"ty_abs_list_list_int", "ty_abs_list_int", "ty_abs_opt_list_str", "ty_abs_list_enum", "st_wmt_true", "st_wmt_false", "st_class_inv_on_inherited", "st_abstract_with_inv", "doc_on_abstract"}
 NeedsPlainText(f) == f \in {"ex_str_cmp", "ex_str_const", "ex_str_escapes", "ex_and_or_mix"}
 
 Applicable(f, t) ==
@@ -354,6 +354,7 @@ Applicable(f, t) ==
     /\ NeedsCPrim(f) => t = "cprim"
     /\ NeedsParent(f) => t \in {"chain", "concrete_chain"}
     /\ f = "st_abstract_with_inv" => t = "chain"
+    /\ f \in {"ty_abs_list_list_int", "ty_abs_list_int", "ty_abs_opt_list_str", "ty_abs_list_enum"} => t = "chain"
     /\ f = "doc_on_abstract" => t = "chain"
     /\ NeedsPlainText(f) => t \notin {"opt"}
 
@@ -473,6 +474,11 @@ ApplyType(f, t, m) ==
       [] f = "ty_cprim_bytes" -> AddTyped(WithCPrim(m, "Blob", "bytearray"), "a_blob", Ref("Blob"))
       [] f = "ty_cprim_chain" -> AddTyped(WithCPrim(WithCPrim(m, "Label", "str"), "Short_label", "Label"), "short_label", Ref("Short_label"))
       [] f = "ty_list_cprim_int" -> AddTyped(WithCPrim(m, "Small_int", "int"), "smalls", ListOf(Ref("Small_int")))
+      \* the same list shapes declared in the ABSTRACT parent (a check that only walks the concrete classes misses them)
+      [] f = "ty_abs_list_list_int" -> AddProp(m, "Parent", Prop("parent_matrix", ListOf(ListOf(IntT))))
+      [] f = "ty_abs_list_int"      -> AddProp(m, "Parent", Prop("parent_ints", ListOf(IntT)))
+      [] f = "ty_abs_opt_list_str"  -> AddProp(m, "Parent", Prop("parent_strs", OptOf(ListOf(StrT))))
+      [] f = "ty_abs_list_enum"     -> AddProp(WithEnum(m), "Parent", Prop("parent_colors", ListOf(Ref("Color"))))
       [] f = "ty_many_props" ->
             AddTyped(AddTyped(AddTyped(AddTyped(m, "alpha", IntT), "beta", OptOf(StrT)), "gamma", Prim("bool")), "fourth", OptOf(Prim("float")))
 
